@@ -104,6 +104,12 @@ def task_throw(task: TaskAny, exception: BaseException) -> None:
 
     fut_waiter = task._fut_waiter  # type: ignore[attr-defined]
 
+    # A cancellation request may also be pending on a task which is still blocked:
+    # Task.cancel() sets _must_cancel when the awaited future refuses to be cancelled,
+    # e.g. the future of asyncio.gather() when all its children are already done.
+    if task._must_cancel:  # type: ignore[attr-defined]
+        raise RuntimeError("cannot interrupt a cancelled task")
+
     if step_method is None:
         # special super hack for C tasks
         callback, arg, ctx = c_task_reschedule(
